@@ -528,7 +528,12 @@ def subject_mechanism(m, symptom, src, failing_subjects=()):
             return base + "-long-constant-lhs-printed-as-int-literal"
         if shape == "cc" and "-long" in base and symptom == "wrong-value":
             return base + "-long-constant-operands-printed-as-int-literals"
+        if shape in ("acc1", "acc2", "join2"):
+            return "%s-%s-%s" % (base, {"acc1": "loop-accumulator-as-first-operand", "acc2": "loop-accumulator-as-second-operand",
+                                        "join2": "redefined-before-join-as-second-operand"}[shape], symptom)
         return "%s-const-%s-%s" % (base, {"cp": "lhs", "pc": "rhs", "cc": "both"}[shape], symptom)
+    if kind == "latch" and re.fullmatch(r"exit-goto:do-while/(while-top|while-bottom|do-while)", base):
+        return "loop-nested-in-do-while-misstructured"   # the same failure as with the other latch shape (nest:do-while/<loop>)
     if kind in G.STRUCT_KINDS:
         return structural_mechanism(m.subject)
     return "%s-%s" % (base, symptom)
